@@ -111,6 +111,7 @@ func cmdRun(args []string) {
 		f, _ := os.Create(lf)
 		e.S.Log = f
 	}
+	e.SchedDebug = os.Getenv("VERIF_SCHED_DEBUG") != ""
 	if *inputs != "" {
 		if err := json.Unmarshal([]byte(*inputs), &e.Fixed); err != nil {
 			fmt.Fprintln(os.Stderr, "bad -inputs:", err)
